@@ -1539,12 +1539,27 @@ func (s *TO2Server) ownerServiceInfo(ctx context.Context, msg io.Reader) (*owner
 	if err := unchunker.Close(); err != nil {
 		return nil, fmt.Errorf("error unchunking received device service info: close: %w", err)
 	}
+	currentModuleName := moduleName
 	for {
 		key, messageBody, ok := unchunked.NextServiceInfo()
 		if !ok {
 			break
 		}
 		moduleName, messageName, _ := strings.Cut(key, ":")
+		// Service info is addressed by module name. A message for a module
+		// other than the current one (such as a late reply to a module that
+		// has already completed) must not be handed to the current module.
+		if moduleName != currentModuleName {
+			slog.Warn("ignoring device service info for a module that is not current",
+				"key", key, "current", currentModuleName)
+			if _, err := io.Copy(io.Discard, messageBody); err != nil {
+				return nil, err
+			}
+			if err := messageBody.Close(); err != nil {
+				return nil, fmt.Errorf("error closing unchunked message body for %q: %w", key, err)
+			}
+			continue
+		}
 		if err := module.HandleInfo(ctx, messageName, messageBody); err != nil {
 			return nil, fmt.Errorf("error handling device service info %q: %w", key, err)
 		}
